@@ -216,6 +216,36 @@ def expected_row(ix, grid, n_axes, table, cell, axes_models):
     return {k: v for k, v in row.items() if v != 0}, norm(vec)
 
 
+def _decide_relational(cond, interior_syms):
+    """order comparisons in the symbolic-N runs: an interior row index s satisfies 1 <= s <= N-2 and every extent is
+    N >= 3 there; with s = 1 + a, N = 3 + a + b (a, b >= 0) the sign of lhs - rhs is decided by sympy's assumptions"""
+    if not isinstance(cond, (sp.StrictLessThan, sp.LessThan, sp.StrictGreaterThan, sp.GreaterThan)):
+        return None
+    sub = {}
+    used_N = set()
+    for k, (sym, N) in enumerate(interior_syms.items()):
+        a = sp.Symbol(f"_a{k}", integer=True, nonnegative=True)
+        b = sp.Symbol(f"_b{k}", integer=True, nonnegative=True)
+        if sym in cond.free_symbols:
+            sub[sym] = 1 + a
+            if isinstance(N, sp.Symbol):
+                sub[N] = 3 + a + b
+                used_N.add(N)
+    for k, q in enumerate(sorted(cond.free_symbols - set(sub), key=str)):
+        if q.name.startswith("N") and q.is_integer and q.is_positive:
+            sub[q] = 3 + sp.Symbol(f"_c{k}", integer=True, nonnegative=True)
+    d = sp.expand((cond.lhs - cond.rhs).subs(sub, simultaneous=True))
+    if d.free_symbols - {v for e in sub.values() for v in sp.sympify(e).free_symbols}:
+        return None
+    if isinstance(cond, sp.StrictLessThan):
+        return True if d.is_negative else (False if d.is_nonnegative else None)
+    if isinstance(cond, sp.LessThan):
+        return True if d.is_nonpositive else (False if d.is_positive else None)
+    if isinstance(cond, sp.StrictGreaterThan):
+        return True if d.is_positive else (False if d.is_nonpositive else None)
+    return True if d.is_nonnegative else (False if d.is_negative else None)
+
+
 def interior_decider(interior_syms, shape_of):
     """decide conditions on interior row symbols: 1 <= s <= N-2, hence s != 0, s != N-1"""
 
@@ -238,6 +268,9 @@ def interior_decider(interior_syms, shape_of):
             if not interior_possible:
                 return isinstance(cond, sp.Unequality)
             return None
+        r = _decide_relational(cond, interior_syms)
+        if r is not None:
+            return r
         return decide_sizes(cond, node)
 
     return decide
@@ -260,12 +293,12 @@ def _assemble(job):
         grid._attrs["axes_coords"] = tuple(IdxArr(a.expr.subs(sp.Symbol("r_min", nonnegative=True), rpos), a.n) for a in grid._attrs["axes_coords"])
         grid._attrs["axes_bounds"] = tuple(tuple(sp.sympify(b).subs(sp.Symbol("r_min", nonnegative=True), rpos) for b in bb) for bb in grid._attrs["axes_bounds"])
     if concrete:
-        # concrete number of cells (2 per axis): loops are unrolled
-        subsN = {n: sp.Integer(2) for n in grid._attrs["shape"]}
-        grid._attrs["shape"] = tuple(2 for _ in grid._attrs["shape"])
-        grid._attrs["axes_coords"] = tuple(IdxArr(a.expr, 2) for a in grid._attrs["axes_coords"])
+        # concrete number of cells (a tuple, 2 or 1 per axis): loops are unrolled
+        subsN = {n: sp.Integer(c) for n, c in zip(grid._attrs["shape"], concrete)}
+        grid._attrs["shape"] = tuple(concrete)
+        grid._attrs["axes_coords"] = tuple(IdxArr(a.expr, c) for a, c in zip(grid._attrs["axes_coords"], concrete))
         grid._attrs["axes_bounds"] = tuple(tuple(sp.sympify(b).subs(subsN) for b in bb) for bb in grid._attrs["axes_bounds"])
-        grid._attrs["_shape_full"] = tuple(4 for _ in grid._attrs["shape"])
+        grid._attrs["_shape_full"] = tuple(c + 2 for c in concrete)
     shape = grid._attrs["shape"]
     bcs, axes_models = make_bcs(ix, grid, n_axes, kinds_per_axis)
     ov = std_overrides(ix, cfg)
@@ -325,7 +358,7 @@ def _assemble(job):
     k = apply_kernel(it2, closure, kgrid, factory=reg.factory.ref, options={})
     table = kernel_table(k, n_axes)
     if concrete:
-        subsN = {n: sp.Integer(2) for n in kgrid._attrs["shape"]}
+        subsN = {n: sp.Integer(c) for n, c in zip(kgrid._attrs["shape"], concrete)}
         table.comps = {c: sp.sympify(t).subs(subsN) for c, t in table.comps.items()}
     out = {"job": job, "mismatch": [], "overwrites": [], "rows": 0, "samples": []}
     mrows = mat.rows()
@@ -609,6 +642,67 @@ def check(tier: str) -> Report:
     return rep
 
 
+def check_bc_data_index(rep: Report, ix, rule: str) -> None:
+    """boundary data may differ from face cell to face cell (inhomogeneous values, expressions of the transverse
+    coordinates): `get_sparse_matrix_data(idx)` selects the data of the face cell `idx`.  In every assembler each such
+    call passes a tuple in which exactly one entry is the virtual index of the boundary (-1 or the extent) and every
+    other entry is the loop variable of the enclosing row loop of that axis -- a call hoisted out of a row loop (or fed a
+    constant) applies the data of one face cell to every row."""
+    n_calls = 0
+    for rel, fname, gcls, n_axes in ASSEMBLERS:
+        fi = ix.func(rel, fname)
+        # loop variables in nesting order with the loops they belong to
+        def visit(node, loops):
+            nonlocal n_calls
+            for ch in ast.iter_child_nodes(node):
+                inner = loops
+                if isinstance(ch, ast.For) and isinstance(ch.target, ast.Name):
+                    inner = loops + [ch.target.id]
+                    # the iterable is evaluated outside the loop
+                    visit_expr(ch.iter, loops)
+                    for b in ch.body + ch.orelse:
+                        visit_stmt(b, inner)
+                    continue
+                visit_stmt(ch, loops) if isinstance(ch, ast.stmt) else visit_expr(ch, loops)
+
+        def visit_stmt(st, loops):
+            if isinstance(st, ast.For) and isinstance(st.target, ast.Name):
+                visit_expr(st.iter, loops)
+                for b in st.body + st.orelse:
+                    visit_stmt(b, loops + [st.target.id])
+                return
+            for ch in ast.iter_child_nodes(st):
+                if isinstance(ch, ast.stmt):
+                    visit_stmt(ch, loops)
+                else:
+                    visit_expr(ch, loops)
+
+        def visit_expr(e, loops):
+            nonlocal n_calls
+            for x in ast.walk(e):
+                if isinstance(x, ast.Call) and isinstance(x.func, ast.Attribute) and x.func.attr == "get_sparse_matrix_data":
+                    n_calls += 1
+                    if len(x.args) != 1 or not isinstance(x.args[0], ast.Tuple):
+                        raise AnalysisError(f"{fi.ref}: `{ast.unparse(x)}`: the index is not a literal tuple (idiom outside the rule)")
+                    elts = x.args[0].elts
+                    loopvars = [e_ for e_ in elts if isinstance(e_, ast.Name) and e_.id in loops]
+                    others = [e_ for e_ in elts if not (isinstance(e_, ast.Name) and e_.id in loops)]
+                    ok = len(elts) == n_axes and len(others) == 1 and len({v.id for v in loopvars}) == len(loopvars)
+                    rep.oblige(f"{fname}@{gcls}:line {x.lineno}: boundary data taken for the face cell of the row", ok, ast.unparse(x))
+                    if not ok:
+                        rep.violation(
+                            rule,
+                            f"{rel}::{fname}::{gcls}::bc-data-index::{ast.unparse(x.args[0])}",
+                            f"`{ast.unparse(x)}` (enclosing row loops over {loops or 'nothing'}): besides the virtual index of the boundary every entry must be the loop variable of the row being assembled; "
+                            f"here {[ast.unparse(o) for o in others]} are not, so the boundary data of one face cell is applied to other rows (wrong for values that vary along the boundary)",
+                            line=x.lineno,
+                        )
+
+        for st in fi.node.body:
+            visit_stmt(st, [])
+    rep.floor("get_sparse_matrix_data call sites in the assemblers", n_calls, 12)
+
+
 def check_matrix_rows(rep: Report, ix, rule_mismatch: str = "C18.matrix-vs-stencil", rule_overwrite: str | None = "C18.overwrite-after-accumulate") -> None:
     """matrix rows == numba stencil with ghost cells eliminated (shared with C03's matrix route)"""
     jobs = []
@@ -639,13 +733,24 @@ def check_matrix_rows(rep: Report, ix, rule_mismatch: str = "C18.matrix-vs-stenc
             for rz in rmins:
                 jobs.append((rel, fname, gcls, n_axes, kinds, rz, False))
                 if n_axes <= 2:
-                    jobs.append((rel, fname, gcls, n_axes, kinds, rz, True))
+                    jobs.append((rel, fname, gcls, n_axes, kinds, rz, (2,) * n_axes))
+                # a single cell along an axis touches both of its boundaries (Cartesian axes and the axial direction of
+                # cylinders; a single radial cell is outside the domain of the pinned assemblers)
+                if gcls == "CartesianGrid" and n_axes == 1:
+                    jobs.append((rel, fname, gcls, n_axes, kinds, rz, (1,)))
+                elif gcls == "CartesianGrid" and n_axes == 2:
+                    jobs.append((rel, fname, gcls, n_axes, kinds, rz, (1, 2)))
+                    jobs.append((rel, fname, gcls, n_axes, kinds, rz, (2, 1)))
+                elif gcls == "CylindricalSymGrid":
+                    jobs.append((rel, fname, gcls, n_axes, kinds, rz, (2, 1)))
+    # second-order (curvature) conditions need two support cells: the package raises for them on a single-cell axis
+    jobs = [j for j in jobs if not (j[6] and any(c == 1 and "C" in k for c, k in zip(j[6], j[4])))]
     with mp.get_context("fork").Pool(min(16, os.cpu_count() or 1)) as pool:
         results = pool.map(_assemble, jobs, chunksize=1)
     n_rows = 0
     for res in results:
         rel, fname, gcls, n_axes, kinds, rz, concrete = res["job"]
-        tag = f"{gcls}/{n_axes}:{'|'.join(a + b for a, b in kinds)}:{'r_min=0' if rz else ('r_min>0' if gcls != 'CartesianGrid' else 'cart')}:{'N=2' if concrete else 'symbolic-N'}"
+        tag = f"{gcls}/{n_axes}:{'|'.join(a + b for a, b in kinds)}:{'r_min=0' if rz else ('r_min>0' if gcls != 'CartesianGrid' else 'cart')}:{('N=' + 'x'.join(map(str, concrete))) if concrete else 'symbolic-N'}"
         if "error" in res:
             raise AnalysisError(f"{rel}::{fname} [{tag}]: {res['error']}")
         rep.saw("assembler rows", f"{rel}::{fname}:{tag}")
@@ -671,6 +776,7 @@ def check_matrix_rows(rep: Report, ix, rule_mismatch: str = "C18.matrix-vs-stenc
         if len(rep.samples) < 8 and res["samples"]:
             rep.sample({"row": tag, "assembler": f"{rel}::{fname}", "extracted": res["samples"][0]})
     rep.floor("matrix rows compared", n_rows, 500)
+    check_bc_data_index(rep, ix, rule_mismatch)
 
 
 def _check_errors_propagate(rep: Report, ix) -> None:
